@@ -12,6 +12,7 @@ package c04
 
 import (
 	"fmt"
+	"io"
 	"runtime"
 	"sort"
 	"strconv"
@@ -30,6 +31,9 @@ const (
 	opCD  = 'd' // Delete if held
 	opRef = 'R' // References
 	opRng = 'G' // Range
+	// client operations (`writers` lines): the real Logging.openWriter / closeLogs
+	opOpen  = 'O' // openWriter(key), OpenWriter succeeds (ok) or fails
+	opClose = 'c' // closeLogs: Delete every remembered key, oldest first
 )
 
 type op struct {
@@ -47,6 +51,13 @@ func (o op) String() string {
 		return fmt.Sprintf("N%df", o.key)
 	case opRng:
 		return "G"
+	case opClose:
+		return "c"
+	case opOpen:
+		if o.ok {
+			return fmt.Sprintf("O%do", o.key)
+		}
+		return fmt.Sprintf("O%df", o.key)
 	}
 	return fmt.Sprintf("%c%d", o.kind, o.key)
 }
@@ -56,6 +67,39 @@ type val struct {
 	id  int
 	key int
 	c   *controller
+}
+
+// probeWriter is the io.WriteCloser a probe WriterOpener hands to Logging.openWriter; the pool
+// stores it wrapped in caddy's writerDestructor, whose Destruct calls Close.
+type probeWriter struct{ v *val }
+
+func (w *probeWriter) Write(p []byte) (int, error) { return len(p), nil }
+
+func (w *probeWriter) Close() error {
+	w.v.Destruct()
+	if w.v.id%3 == 0 {
+		return fmt.Errorf("close failed") // closeLogs only logs this
+	}
+	return nil
+}
+
+// probeOpener is a caddy.WriterOpener whose OpenWriter parks like a constructor.
+type probeOpener struct {
+	t   *thread
+	key int
+	ok  bool
+}
+
+func (o *probeOpener) String() string    { return "probe" }
+func (o *probeOpener) WriterKey() string { return o.t.c.key(o.key).(string) }
+func (o *probeOpener) OpenWriter() (io.WriteCloser, error) {
+	o.t.park(msg{kind: mCtor})
+	if !o.ok {
+		return nil, fmt.Errorf("constructor failed")
+	}
+	c := o.t.c
+	c.nextVal++
+	return &probeWriter{&val{id: c.nextVal - 1, key: o.key, c: c}}, nil
 }
 
 func (v *val) Destruct() error {
@@ -80,6 +124,7 @@ type ret struct {
 	v       *val // LoadOrNew / LoadOrStore value (nil = nil interface)
 	badType bool // a value of a foreign type came back
 	loaded  bool
+	isNew   bool // client: what openWriter reported
 	err     bool
 	deleted bool
 	n       int
@@ -119,11 +164,26 @@ type thread struct {
 	resume chan cmd
 	lsVal  int  // LoadOrStore in progress: number of its value
 	lsObj  *val // … and the value object
+	// client mode
+	logging      *caddy.Logging
+	closeDeletes int // closeLogs in progress: Deletes entered so far
+	closeKey     int // … key of the Delete in progress
+	cl           closeState
 }
 
 func (t *thread) done() bool { return t.pc >= len(t.prog) }
 
+type closeState int
+
+const (
+	clStart closeState = iota // at the entry of a Delete (or of closeLogs itself)
+	clRead                    // Delete removed the entry, before reading its value
+	clDtor                    // inside the destructor
+)
+
 type controller struct {
+	client  bool // `writers` line: the pool is caddy's writers pool, keys are strings unique to the case
+	caseNo  uint64
 	up      *caddy.UsagePool
 	nk      int
 	threads []*thread
@@ -139,6 +199,19 @@ var active atomic.Pointer[controller]
 
 // pointLoadOrStoreRetry = caddy.VerifUPLoadOrStoreRetry (usagepool_verif.go)
 const pointLoadOrStoreRetry = 7
+
+// pointDeleteEntry = caddy.VerifUPDeleteEntry
+const pointDeleteEntry = 8
+
+var caseCounter atomic.Uint64
+
+// key is the pool key of model key k
+func (c *controller) key(k int) any {
+	if c.client {
+		return fmt.Sprintf("verif-c04-%d-%d", c.caseNo, k)
+	}
+	return k
+}
 
 var stressTick atomic.Uint64
 
@@ -160,6 +233,17 @@ func init() {
 		t := c.current
 		if t == nil {
 			return // the controller's own observation calls
+		}
+		if point == pointDeleteEntry {
+			// only the Deletes a client issues back to back are separated here; the first one
+			// belongs to the region that started the client call
+			if t.done() || t.prog[t.pc].kind != opClose {
+				return
+			}
+			t.closeDeletes++
+			if t.closeDeletes == 1 {
+				return
+			}
 		}
 		t.park(msg{kind: mYield, point: point, lock: l})
 	}
@@ -243,6 +327,27 @@ func (t *thread) exec(o op, k cmd) (r ret) {
 			deleted, err := c.up.Delete(o.key)
 			r.deleted, r.err = deleted, err != nil
 		}()
+	case opOpen:
+		w, isNew, err := t.logging.VerifOpenWriter(&probeOpener{t: t, key: o.key, ok: o.ok})
+		r.err = err != nil
+		r.isNew = isNew
+		if w != nil {
+			if pw, ok := caddy.VerifUnwrapWriter(w).(*probeWriter); ok {
+				r.v = pw.v
+			} else {
+				r.badType = true
+			}
+		}
+		r.loaded = !isNew
+	case opClose:
+		func() {
+			defer func() {
+				if p := recover(); p != nil {
+					r.panic = true
+				}
+			}()
+			r.err = t.logging.VerifCloseLogs() != nil
+		}()
 	case opRef:
 		r.n, r.present = c.up.References(o.key)
 	case opRng:
@@ -257,10 +362,14 @@ func (t *thread) exec(o op, k cmd) (r ret) {
 	return r
 }
 
-func newController(nk int, progs [][]op) *controller {
-	c := &controller{up: caddy.NewUsagePool(), nk: nk, evt: make(chan msg), dead: make(chan struct{}), nextVal: 1}
+func newController(nk int, progs [][]op, client bool) *controller {
+	c := &controller{up: caddy.NewUsagePool(), nk: nk, evt: make(chan msg), dead: make(chan struct{}), nextVal: 1,
+		client: client, caseNo: caseCounter.Add(1)}
+	if client {
+		c.up = caddy.VerifWritersPool()
+	}
 	for i, p := range progs {
-		t := &thread{id: i, c: c, prog: p, resume: make(chan cmd)}
+		t := &thread{id: i, c: c, prog: p, resume: make(chan cmd), logging: &caddy.Logging{}}
 		c.threads = append(c.threads, t)
 	}
 	active.Store(c)
@@ -321,7 +430,7 @@ func (c *controller) enabled(t *thread) bool {
 	}
 	if !t.inOp {
 		switch t.prog[t.pc].kind {
-		case opLN, opLS, opDel, opCD: // (a skipped conditional Delete is handled by the caller)
+		case opLN, opLS, opDel, opCD, opOpen, opClose: // (a skipped conditional Delete is handled by the caller)
 			return tryW(&c.up.RWMutex)
 		default:
 			return tryR(&c.up.RWMutex)
@@ -332,7 +441,7 @@ func (c *controller) enabled(t *thread) bool {
 		switch t.atPt {
 		case caddy.VerifUPLoadOrNewWait, caddy.VerifUPLoadOrStoreWait, caddy.VerifUPDeleteRead:
 			return tryR(t.atLock)
-		case caddy.VerifUPLoadOrNewFail, pointLoadOrStoreRetry:
+		case caddy.VerifUPLoadOrNewFail, pointLoadOrStoreRetry, pointDeleteEntry:
 			return tryW(&c.up.RWMutex)
 		}
 	}
@@ -362,7 +471,7 @@ type refObs struct {
 func (c *controller) observe() []refObs {
 	out := make([]refObs, c.nk)
 	for k := 0; k < c.nk; k++ {
-		n, ok := c.up.References(k)
+		n, ok := c.up.References(c.key(k))
 		out[k] = refObs{n, ok}
 	}
 	return out
@@ -400,6 +509,7 @@ type stepResult struct {
 	m      msg // the message that ended the step (mRet carries the return values)
 	opDone bool
 	dv     *val // X: the value whose destructor ran
+	ckey   int  // closeLogs: the key of the Delete in progress
 }
 
 // holdsKey is supplied by the oracle's bookkeeping of the implementation's own returns.
@@ -407,7 +517,7 @@ type holdsFn func(t, key int) bool
 
 // turn runs the next region of thread t. inDrain: a Range that is still blocked after being
 // released is reported as silent.
-func (c *controller) turn(t *thread, holds holdsFn, absentBefore func(key int) bool, inDrain bool) stepResult {
+func (c *controller) turn(t *thread, holds holdsFn, oldest func(t int) (int, bool), absentBefore func(key int) bool, inDrain bool) stepResult {
 	if t.done() {
 		return stepResult{tok: "-"}
 	}
@@ -438,6 +548,17 @@ func (c *controller) turn(t *thread, holds holdsFn, absentBefore func(key int) b
 		}
 	}
 	wasAbsent := false
+	if first && o.kind == opClose {
+		t.closeDeletes, t.cl = 0, clStart
+	}
+	closeHas := false
+	if o.kind == opClose && t.cl == clStart {
+		t.closeKey, closeHas = oldest(t.id)
+		if closeHas {
+			wasAbsent = absentBefore(t.closeKey)
+		}
+	}
+	res.ckey = t.closeKey
 	if first && (o.kind == opDel || o.kind == opCD) {
 		wasAbsent = absentBefore(o.key)
 	}
@@ -452,9 +573,9 @@ func (c *controller) turn(t *thread, holds holdsFn, absentBefore func(key int) b
 	}
 	c.current = nil
 	res.m = m
-	prevAt, prevVal := t.at, t.atVal
+	prevAt, prevPt, prevVal := t.at, t.atPt, t.atVal
 	if first {
-		prevAt, prevVal = mRet, nil
+		prevAt, prevPt, prevVal = mRet, 0, nil
 	}
 	t.at, t.atPt, t.atLock, t.atVal = m.kind, m.point, m.lock, m.v
 	if m.kind == mRet {
@@ -463,9 +584,49 @@ func (c *controller) turn(t *thread, holds holdsFn, absentBefore func(key int) b
 		res.opDone = true
 	}
 	r := m.r
+	if o.kind == opOpen && m.kind == mRet && r.err {
+		// openWriter reports (nil, false, err) for the constructing call and for a waiter alike
+		r.loaded = prevAt == mYield && prevPt == caddy.VerifUPLoadOrNewWait
+		res.m.r.loaded = r.loaded
+	}
 	unexpected := func() string { return fmt.Sprintf("?%c.%d.%d", o.kind, m.kind, m.point) }
+	closeNext := m.kind == mRet || (m.kind == mYield && m.point == pointDeleteEntry) // this Delete has returned
 	switch {
-	case o.kind == opLN && first:
+	case o.kind == opClose:
+		switch t.cl {
+		case clStart:
+			switch {
+			case r.panic:
+				res.tok = "Dp"
+			case m.kind == mRet && !closeHas && t.closeDeletes == 0:
+				res.tok = "Ce"
+			case m.kind == mYield && m.point == caddy.VerifUPDeleteRead:
+				res.tok, t.cl = "Dz", clRead
+			case closeNext && wasAbsent:
+				res.tok = "Dn"
+			case closeNext:
+				res.tok = "Dd"
+			default:
+				res.tok = unexpected()
+			}
+		case clRead:
+			switch {
+			case m.kind == mDtor:
+				res.tok, t.cl = "E"+valStr(m.v), clDtor
+			case closeNext:
+				res.tok, t.cl = "En", clStart
+			default:
+				res.tok = unexpected()
+			}
+		case clDtor:
+			if closeNext {
+				res.tok, t.cl = "X"+valStr(prevVal), clStart
+				res.dv = prevVal
+			} else {
+				res.tok = unexpected()
+			}
+		}
+	case (o.kind == opLN || o.kind == opOpen) && first:
 		switch {
 		case m.kind == mCtor:
 			res.tok = "Ni"
@@ -474,7 +635,7 @@ func (c *controller) turn(t *thread, holds holdsFn, absentBefore func(key int) b
 		default:
 			res.tok = unexpected()
 		}
-	case o.kind == opLN:
+	case o.kind == opLN || o.kind == opOpen:
 		switch {
 		case m.kind == mRet && !r.loaded && !r.err:
 			res.tok = "Co" + valStr(r.v)
